@@ -481,7 +481,30 @@ namespace {
       if (op == "qualified") {
          need(2);
          auto q = static_cast<ipr::Qualifiers>(std::stoul(w[1]));
-         return h.name(L.get_qualified(q, h.node<ipr::Type>(w[2])));
+         auto& operand = h.node<ipr::Type>(w[2]);
+         // Before the request itself: the same qualified type asked for in two steps whose first step was taken by ANOTHER Lexicon (a guest
+         // that lives as long as the process): `guest.get_qualified(q1, T)` is a Qualified node this Lexicon did not make, and
+         // qualifying it here must land on this Lexicon's node for (q1 | q2, T) -- the main variant is T, never a qualified type,
+         // whoever made the operand.  q1 = q (the second step adds nothing) and q1 = one coordinate of q, alternately.
+         const ipr::Type* through_guest = nullptr;
+         const auto bits = static_cast<std::uintptr_t>(q);
+         if (bits != 0 and util::view<ipr::Qualified>(operand) == nullptr) {
+            static ipr::impl::Lexicon guest;
+            static unsigned turn = 0;
+            const auto low = bits & (~bits + 1);
+            const bool split = (bits != low) and (++turn % 2 == 0);
+            const auto q1 = split ? low : bits;
+            const auto q2 = split ? (bits & ~low) : ((turn % 3 == 0) ? low : bits);
+            auto& first_step = guest.get_qualified(static_cast<ipr::Qualifiers>(q1), operand);
+            through_guest = &L.get_qualified(static_cast<ipr::Qualifiers>(q2), first_step);
+         }
+         auto& result = L.get_qualified(q, operand);
+         if (through_guest != nullptr) {
+            auto qt = util::view<ipr::Qualified>(*through_guest);
+            if (through_guest != &result or qt == nullptr or &qt->main_variant() != &operand or qt->qualifiers() != q)
+               notes += "@foreign_qualified_operand=0\n";
+         }
+         return h.name(result);
       }
       if (op == "function") { need(2); return h.name(L.get_function(h.node<ipr::Product>(w[1]), h.node<ipr::Type>(w[2]))); }
       if (op == "function_x") {
